@@ -38,20 +38,18 @@ def strategy(tier):
         spec, focus = draw(gen.specs_and_focus(opts, 8))
         sa, _ = draw(gen.streams(spec, max_rows=10, focus=focus))
         control = draw(st.integers(0, 5)) == 0
-        variant = None if control else draw(gen.variant_of(spec))
+        variants = []
+        if not control:
+            for _ in range(draw(st.integers(1, 4))):
+                v = draw(gen.variant_of(spec))
+                if v is not None and all(v["desc"] != u["desc"] or v["path"] != u["path"] for u in variants):
+                    variants.append(v)
         same = draw(st.booleans())
         if same:
             sb = sa
         else:
-            sb, _ = draw(gen.streams(variant["spec"] if variant else spec, max_rows=10, focus=focus))
-        return {
-            "spec": spec,
-            "variant": variant,
-            "sa": [[r, w] for r, w in sa],
-            "sb": [[r, w] for r, w in sb],
-            "swap": draw(st.booleans()),
-            "op": draw(st.sampled_from(("+", "+="))),
-        }
+            sb, _ = draw(gen.streams(spec, max_rows=10, focus=focus))
+        return {"spec": spec, "variants": variants, "sa": [[r, w] for r, w in sa], "sb": [[r, w] for r, w in sb]}
 
     return cases()
 
@@ -66,15 +64,86 @@ def fill(h, stream):
     return h
 
 
+STRUCT_PARAMS = ("num", "low", "high", "binWidth", "origin", "centers", "edges", "thresholds", "range", "transform")
+
+
+def parent_path(path):
+    path = tuple(path)
+    if len(path) >= 2 and path[-2] in ("pairs", "values"):
+        return path[:-2]
+    return path[:-1]
+
+
+def first_difference(a, b, path=()):
+    """(spec path of the first node at which two specs differ, True iff they differ in primitive type there)."""
+    from ..spec import SLOTS  # noqa: PLC0415
+
+    if a["k"] != b["k"]:
+        return path, True
+    if any(a.get(p) != b.get(p) for p in STRUCT_PARAMS):
+        return path, False
+    for slot, kind in SLOTS.get(a["k"], ()):
+        if kind == "one":
+            r = first_difference(a[slot], b[slot], path + (slot,))
+            if r is not None:
+                return r
+        else:
+            ka = list(a[slot]) if kind == "map" else list(range(len(a[slot])))
+            kb = list(b[slot]) if kind == "map" else list(range(len(b[slot])))
+            if sorted(map(str, ka)) != sorted(map(str, kb)):
+                return path, False
+            for key in ka:
+                r = first_difference(a[slot][key], b[slot][key], path + (slot, key))
+                if r is not None:
+                    return r
+    return None if path else ((), False)
+
+
 def check(case):
+    """Every drawn variant is tried with + and +=, in both operand orders, on freshly built operands."""
     lib()
-    spec, v = case["spec"], case["variant"]
-    a = fill(build(spec), case["sa"])
-    b = fill(build(v["spec"] if v else spec), case["sb"])
-    left, right = (b, a) if case["swap"] else (a, b)
+    spec = case["spec"]
+    variants = case.get("variants")
+    if variants is None:  # replay files of the first version: one variant, one op, one order
+        variants = [case["variant"]] if case.get("variant") else []
+        combos = [(case["op"], case["swap"])]
+    else:
+        combos = [("+", False), ("+", True), ("+=", False), ("+=", True)]
+    labels = ["kind:" + k for k in kinds(spec)]
+    known = None
+    nontrivial = False
+    for v in variants or [None]:
+        for opname, swap in combos:
+            try:
+                info = check_one(spec, v, case["sa"], case["sb"], opname, swap)
+            except Violation as e:
+                if e.kind == "iadd-partial-mutation":
+                    known = known or e  # recorded deviation: keep checking the other combinations
+                    continue
+                raise
+            nontrivial = nontrivial or info["nontrivial"]
+            labels += [x for x in info["labels"] if x not in labels]
+    info = {"nontrivial": nontrivial, "labels": labels}
+    if known is not None:
+        from .. import findings  # noqa: PLC0415
+
+        e = findings.match(ID, known.kind, known.sig)
+        if e is None:
+            raise known
+        # a recorded deviation: report the hit through the info (the other combinations of this case were checked too)
+        info["known"] = {e["id"]: 1}
+        info["labels"] = labels + ["known-finding:" + e["id"]]
+    return info
+
+
+def check_one(spec, v, sa, sb, opname, swap):
+    a = fill(build(spec), sa)
+    b = fill(build(v["spec"] if v else spec), sb)
+    left, right = (b, a) if swap else (a, b)
     dl, dr = doc(left), doc(right)
-    op = operator.add if case["op"] == "+" else operator.iadd
-    labels = ["op:" + case["op"]] + ["kind:" + k for k in kinds(spec)]
+    op = operator.add if opname == "+" else operator.iadd
+    labels = ["op:" + opname]
+    case = {"op": opname}
 
     if v is None:
         res = op(left, right)  # an exception here is a violation (lib-exception)
@@ -90,16 +159,16 @@ def check(case):
         op(left, right)
     except Exception as e:  # noqa: BLE001  (the statement does not fix the class)
         raised = e
-    nested = len(v["path"]) >= 1 or ":" in v["desc"]  # a changed child slot is a mismatch one level below the node
+    # Where do the two specs first differ?  (Walking down from the root while primitive type and own parameters agree:
+    # e.g. Select(Select(X)) vs Select(X) differ one level BELOW the root although the variant was applied at it.)
+    dpath, kind_differs = first_difference(spec, v["spec"])
+    nested = len(dpath) >= 1
     sig = {"variant": v["desc"].split(".")[0].split("->")[0].split(":")[0], "op": case["op"], "nested": nested}
     # The difference must be observable in BOTH operands: a sparse container's template is instantiated once per
     # existing bin, possibly never, and an operand that never instantiated the differing node is indistinguishable
-    # (document, ==) from one built with the other spec.  A changed node *type* shows in its parent's "bins:type"
-    # as soon as the parent exists; a changed parameter only in an instance of the node itself.
-    typechange = "->" in v["desc"] and ":" not in v["desc"]
-    where = v["path"][:-1] if typechange and v["path"] else v["path"]
-    if typechange and v["path"] and isinstance(v["path"][-1], (int,)) or (typechange and len(v["path"]) >= 2 and v["path"][-2] in ("pairs", "values")):
-        where = v["path"][:-2]
+    # (document, ==) from one built with the other spec.  A different node *type* shows in its parent's "bins:type" as
+    # soon as the parent exists; different parameters only in an instance of the node itself.
+    where = parent_path(dpath) if kind_differs and dpath else dpath
     realised = bool(walk.instances(a, spec, where)) and bool(walk.instances(b, v["spec"], where))
     if not realised:
         labels.append("unrealised-template")
